@@ -510,9 +510,21 @@ theorem hdr_ok (s : UInt64) : _cbor_encoded_header_size.ok s = true := by
   repeat' split
   all_goals rfl
 
+/-- the conversion of a value to `size_t` distributes over a conditional expression (`return c ? 1 : 2;` in a `size_t` function) -/
+theorem toU64_ite (c : Prop) [Decidable c] (a b : Int) : C.toU64 (if c then a else b) = if c then C.toU64 a else C.toU64 b := by
+  split <;> rfl
+
+/-- evaluate the conversion of an `int` constant to an unsigned type (`return 1;` and `return c ? 1 : 2;` give `(1 : UInt64)` resp.
+`C.toU64 (1 : Int)`, depending on where the C source puts the constant) -/
+macro "lit_conv" : tactic => `(tactic| (
+  try simp only [C.toU64, C.toU32, C.toU16, C.toU8, Int.reduceMod, Int.reduceToNat, Int.reduceNeg, Int.reduceAdd, Int.reduceSub,
+    UInt64.reduceOfNat, UInt32.reduceOfNat, UInt16.reduceOfNat, UInt8.reduceOfNat] at *))
+
 /-- split first (the path conditions are small), then rewrite the known tags **in the hypotheses** and decide -/
 macro "size_finish" "[" ts:Lean.Parser.Tactic.simpLemma,* "]" : tactic => `(tactic| (
+  (try simp only [toU64_ite])
   ser_cases
+  all_goals lit_conv
   all_goals first
     | (with_reducible rfl)
     | ((try simp only [$ts,*, Bool.and_eq_true, Bool.true_and, Bool.and_true, Bool.and_self, hdr_ok, Props.C20.C20_sadd_ok] at *)
